@@ -992,9 +992,13 @@ pub fn xpath_mutant(expr: &str) -> Outcome {
     Outcome { observed, expected: "a value or an error".to_string(), note: String::new() }
 }
 
-/// C06, deep nesting: "(" * k, "a[a" * k, "count(" * k with k = 1000, each in a child process (the expression parser and the
-/// evaluator recurse once per level; a stack overflow aborts the process)
-pub const XPATH_DEEP: [&str; 6] = ["paren:200", "pred:200", "call:200", "paren:1000", "pred:1000", "call:1000"];
+/// C06, each in a child process with a time limit of 20 s: deep nesting ("(" * k, "a[a" * k, "count(" * k: the expression parser
+/// and the evaluator recurse once per level; a stack overflow aborts the process) and repeated steps (a blow-up hangs)
+pub const XPATH_DEEP: [&str; 22] = [
+    "paren:200", "pred:200", "call:200", "paren:1000", "pred:1000", "call:1000",
+    // steps that reach the same nodes again and again: a node list that is not de-duplicated between steps grows with every step
+    "updown:10", "updown:40", "samechild:10", "samechild:40", "desc:12", "descanc:10", "descanc:40", "parent:10", "parent:40", "folprec:10", "folprec:40", "allup:10", "allup:40", "sibs:10", "sibs:40", "updown8:12",
+];
 
 pub fn xpath_deep_expr(shape: &str) -> String {
     let (kind, k) = shape.split_once(':').unwrap_or(("paren", "10"));
@@ -1002,6 +1006,15 @@ pub fn xpath_deep_expr(shape: &str) -> String {
     match kind {
         "pred" => format!("a{}{}", "[a".repeat(k), "]".repeat(k)),
         "call" => format!("{}/{}", "count(".repeat(k), ")".repeat(k)),
+        "updown" => format!("/r{}/*", "/*/..".repeat(k)),
+        "samechild" => format!("/r{}", "/a/..".repeat(k)),
+        "desc" => "//*".repeat(k),
+        "descanc" => format!("/r{}", "/descendant::*/ancestor::*".repeat(k)),
+        "parent" => format!("/r{}/@x", "/*/parent::*".repeat(k)),
+        "folprec" => format!("//a{}", "/following::*/preceding::*".repeat(k)),
+        "allup" => format!("(//* | //@*){}", "/..".repeat(k)),
+        "sibs" => format!("/r{}", "/*/preceding-sibling::*/following-sibling::*".repeat(k)),
+        "updown8" => format!("count(/r{})", "/node()/..".repeat(k)),
         _ => format!("{}1{}", "(".repeat(k), ")".repeat(k)),
     }
 }
